@@ -169,3 +169,54 @@ def first_leaf_dt(L, cref):
         cref = cref[1][0][1]
         seen += 1
     return cref[2] if len(cref) > 2 else 'ST'
+
+
+def open_ended(tier):
+    """C02: Z-segments and segments whose last field is `varies` accept any index 1..N and encode every populated
+    field at its own index, whatever the order in which the fields were populated (executed on the real code)."""
+    from hl7apy.core import Segment
+    from hl7apy.parser import parse_segment
+    import itertools
+    checked = 0
+    failures = []
+    samples = []
+    for v in VERSIONS:
+        L = lib(v)
+        cands = [('ZIN', 0), ('ZZ1', 0)]
+        for seg, ref in sorted(L.SEGMENTS.items()):
+            try:
+                kids = ref[1]
+                if kids and kids[-1][1][2] == 'varies' and all(c[0] == '%s_%d' % (seg, i + 1) for i, c in enumerate(kids)):
+                    cands.append((seg, len(kids)))
+            except Exception:
+                continue
+        for seg, n in cands:
+            orders = [[n + 7, n + 2], [n + 2, n + 7], [n + 40, n + 1, n + 12], [n + 3, n + 2, n + 1]]
+            if tier == 'thorough':
+                orders += [list(p) for p in itertools.permutations([n + 1, n + 5, n + 9, n + 120])]
+            for order in orders:
+                checked += 1
+                try:
+                    s = Segment(seg, version=v)
+                    for i in order:
+                        setattr(s, '%s_%d' % (seg.lower(), i), 'V%d' % i)
+                    text = s.to_er7()
+                    cols = text.split('|')
+                    bad = [i for i in order if len(cols) <= i or cols[i] != 'V%d' % i]
+                    extra = [j for j, c in enumerate(cols) if j > 0 and c and j not in order]
+                    if bad or extra:
+                        failures.append({'id': 'open-ended:%s:%s:%s' % (v, seg, order), 'family': 'open-ended:%s:%s' % (v, seg),
+                                         'text': 'v%s %s populated in the order %s encodes as %r (fields %s misplaced or lost)' % (v, seg, order, text, bad or extra)})
+                        continue
+                    p = parse_segment(text, version=v)
+                    miss = [i for i in order if getattr(p, '%s_%d' % (seg.lower(), i)).to_er7() != 'V%d' % i]
+                    if miss or p.to_er7() != text:
+                        failures.append({'id': 'open-ended-parse:%s:%s:%s' % (v, seg, order), 'family': 'open-ended-parse:%s:%s' % (v, seg),
+                                         'text': 'v%s parse_segment(%r): fields %s not found under their names' % (v, text, miss)})
+                except Exception as e:
+                    failures.append({'id': 'open-ended-exc:%s:%s:%s' % (v, seg, order), 'family': 'open-ended-exc:%s:%s' % (v, seg),
+                                     'text': 'v%s %s order %s raised %s: %s' % (v, seg, order, type(e).__name__, e)})
+            if len(samples) < 2:
+                samples.append({'version': v, 'segment': seg, 'orders': orders[:2]})
+    return {'checked': checked, 'failures': failures, 'samples': samples, 'exhaustive': False,
+            'rule': 'open-ended segments x population orders (ascending, descending, mixed, far indices)'}
